@@ -1274,6 +1274,16 @@ func inlinedView(P *Prog) (*Prog, []string) {
 			notes = append(notes, "context parameter pass discarded: "+firstLines(err.Error(), 3))
 		}
 	}
+	// new function variables that are only called are function declarations
+	if r := funcVarsToFuncs(cur.Pkgs, overlay); r.Count > 0 {
+		if Q, err := loadProg(P.RepoDir, P.Tags, r.Overlay); err == nil {
+			notes = append(notes, r.Notes...)
+			overlay = r.Overlay
+			last, cur = Q, Q
+		} else {
+			notes = append(notes, "function variable pass discarded: "+firstLines(err.Error(), 3))
+		}
+	}
 	// then: parameters that were added to baseline functions and are only logged
 	if r := dropLogOnlyParams(cur.Pkgs, overlay); r.Count > 0 {
 		if Q, err := loadProg(P.RepoDir, P.Tags, r.Overlay); err == nil {
